@@ -68,6 +68,11 @@ def summaries(repo):
     return all_summaries(repo)
 
 
+def shape_stats(repo):
+    ss = summaries(repo)
+    return (sum(len(v) for v in ss.values()), sum(len(s.paths) for v in ss.values() for s in v))
+
+
 def ok_paths(summ):
     return [ps for ps in summ.paths if ps.raised is None]
 
